@@ -166,7 +166,9 @@ class CbHarness:
         if self.pre:
             f.add_callbacks(*self.handlers[0])
             del self.events[:]
-        self.sched.trace_lines(*[getattr(ResponseFuture, n) for n in self.FUNCS])
+        # every function of cluster.py is pre-empted line by line while a logical thread runs it: the binding does not
+        # depend on how the completion / registration code is cut into methods
+        self.sched.trace_files(ccluster.__file__)
         for c in range(1, nc + 1):
             self.sched.spawn(str(c), self._complete, self.kinds[c - 1])
         for i, r in enumerate(range(nc + 1, nc + nr + 1)):
@@ -224,7 +226,7 @@ class CbHarness:
             self.errors[t] = repr(ex)
             raise Divergence("thread %d raised %r" % (t, ex))
 
-    def until_event(self, t, kind, limit=40):
+    def until_event(self, t, kind, limit=200):
         start = len(self.events)
         for _ in range(limit):
             label = self.step(t)
@@ -235,7 +237,7 @@ class CbHarness:
                 break
         raise Divergence("thread %d did not produce '%s' (events %s)" % (t, kind, self.events[start:]))
 
-    def to_lock(self, t, limit=60):
+    def to_lock(self, t, limit=300):
         """Internal steps: bring t to the point where it asks for the lock (or to its end)."""
         th = self.sched.threads[str(t)]
         for _ in range(limit):
@@ -244,7 +246,7 @@ class CbHarness:
             self.step(t)
         raise Divergence("thread %d neither finishes nor asks for the lock" % t)
 
-    def finish(self, t, limit=200):
+    def finish(self, t, limit=1000):
         th = self.sched.threads[str(t)]
         for _ in range(limit):
             if th.done:
